@@ -35,8 +35,8 @@ def oracle(case, rec, group):
         if rec["exn"] != "AssertionError":
             out.append(dict(op="for", key="stop-exceeds-max", what="secret loop bound above the public maximum with checkstopmax=True did not raise AssertionError (got %s)" % rec["exn"], msg=rec["msg"]))
         return out
-    if terr == "stop-below-start":
-        return out         # outside the side condition 'start <= stop' of the construct
+    if terr in ("stop-below-start", "index"):
+        return out         # outside the side conditions of the constructs ('start <= stop'; array index inside the array)
     if terr is not None: return out
     if rec["exn"] is not None:
         out.append(dict(op="block", key="raised:%s" % rec["exn"], what="oblivious program raised %s where the native program completes" % rec["exn"], msg=rec["msg"], native=want))
@@ -44,6 +44,7 @@ def oracle(case, rec, group):
     got = rec["final_bvals"]
     def norm(g):
         if isinstance(g, list): return [norm(x) for x in g]
+        if isinstance(g, dict) and "arr" in g: return [norm(x) for x in g["arr"]]
         return g.get("lc", g.get("b")) if isinstance(g, dict) else g
     for v, w in want.items():
         gv = norm(got.get("v%d" % v))
